@@ -4,7 +4,7 @@ CONSTANTS
   Gate = FALSE
   EnvGate = FALSE
   CmdKinds = {"shoot", "copy"}
-  MaxCmd = 3
+  MaxCmd = 2
   HSScript <- HSNone
   MaxHS = 1
 INVARIANTS RspOnce RspAfterAll StageOrder EachUnitOnce Sane InOrder AllServed NoPanic
